@@ -565,6 +565,24 @@ pub fn execute(scn: &RtScn, ctx: &mut Ctx) {
         }
     }
     let dec = check_bytes(ctx, ty, &shp, shx.as_deref(), &written, &site);
+    {
+        // C18: the content length stored in each record header, found by walking the file with the
+        // announced sizes themselves (independent of the stored lengths and of the decoder)
+        let anns: Vec<usize> = run.marks.iter().filter(|m| m.res.is_ok()).filter_map(|m| m.announced).collect();
+        let mut o = 100usize;
+        for (i, a) in anns.iter().enumerate() {
+            if o + 8 > shp.len() {
+                ctx.fail("C18", "content-length-field", type_name(ty), format!("record {}: expected at offset {} from the announced sizes, but the file has {} bytes", i + 1, o, shp.len()));
+                break;
+            }
+            let stored = i32::from_be_bytes([shp[o + 4], shp[o + 5], shp[o + 6], shp[o + 7]]);
+            if stored as i64 != ((a + 4) / 2) as i64 {
+                ctx.fail("C18", "content-length-field", type_name(ty), format!("record {} at offset {}: content length {} words stored for an announced size of {} bytes", i + 1, o, stored, a));
+                break;
+            }
+            o += 8 + 4 + a;
+        }
+    }
     if let Some(dec) = &dec {
         // C18: stored content length = (announced + 4) / 2 words
         let anns: Vec<usize> = run.marks.iter().filter(|m| m.res.is_ok()).filter_map(|m| m.announced).collect();
